@@ -182,7 +182,7 @@ func runC19(c *Ctx) {
 				malformed = "missing request body"
 			case f.IsCmp && f.Op.String() == "!=" && strings.Contains(f.L.String(), ").Decode(") && f.R.Sym == "nil":
 				malformed = "undecodable request"
-			case f.IsCmp && f.Op.String() == "==" && strings.HasPrefix(f.L.String(), "builtin:len(") && strings.Contains(f.L.String(), ".IDs)") && f.R.String() == "0":
+			case f.Entails(CmpSpec{A: LenOf(Matcher{"request.IDs", func(t *Term) bool { return t.Op == "field" && t.Sym == "IDs" }}), NoB: true, Rel: LE, D: 0}):
 				malformed = "empty ID list"
 			case f.IsCmp && f.Op.String() == "!=" && strings.HasPrefix(f.L.String(), "builtin:len(") && (f.R.String() == "32" || strings.HasSuffix(f.R.String(), "blockchain.IDLength")):
 				malformed = "ID of wrong length"
